@@ -468,6 +468,51 @@ pub fn run(ctx: &Ctx) -> Rep {
         rep.set_max("max.longest_text_bytes", x.longest);
     }
 
+    // ---- (4b') column-aligned texts with empty cells ----------------------------------------------------
+    // Fixed-width hand texts ("AS KS QS ...": two-character cells separated by one separator) in which some
+    // cells are blanked out with spaces: the byte length and the alignment are those of a complete hand, the
+    // number of whitespace-separated tokens is not. Every non-empty set of blanked cells, sizes 2..7, a few
+    // separators and seeded cards; also cells widened to three characters ("10s").
+    {
+        let mut st = St { rep: Rep::new(), x: mk(), cur: [0; 8], cur_len: 0, cur_what: "" };
+        let mut rng = Rng::new(seed, 0xC12_4C00);
+        let mut n_texts = 0u64;
+        for n in 2..=7usize {
+            for blank_mask in 0u32..(1 << n) {
+                for sep in [' ', '\t', '\u{A0}'] {
+                    for style in 0..3 {
+                        let mut s = String::new();
+                        for k in 0..n {
+                            if k > 0 {
+                                s.push(sep);
+                            }
+                            if blank_mask >> k & 1 == 1 {
+                                s.push_str(if style == 2 { "   " } else { "  " });
+                            } else {
+                                let i = rng.below(52) as u8;
+                                let r = model::RANK_CHARS[model::rank_of(i) as usize];
+                                let su = if style == 1 { ['♠', '♥', '♦', '♣'][model::suit_of(i) as usize] } else { ['S', 'H', 'D', 'C'][model::suit_of(i) as usize] };
+                                s.push(r);
+                                s.push(su);
+                                if style == 2 {
+                                    s.push('x');
+                                }
+                            }
+                        }
+                        check_text(&mut st, &s);
+                        n_texts += 1;
+                        if ctx.smoke() && n_texts > 200 {
+                            break;
+                        }
+                    }
+                }
+            }
+        }
+        st.rep.add("column_aligned_texts_with_empty_cells", n_texts);
+        st.rep.distinct += n_texts;
+        rep.merge(st.rep);
+    }
+
     // ---- (4c) token sequences: a token right after a look-alike ------------------------------------------
     // Parsing a token must not depend on what was parsed before. For every valid two-symbol token t and every
     // "alias" of it (a character whose code point agrees with the symbol in its low 8 or 16 bits, from other
